@@ -201,6 +201,7 @@ def run(ck: Check):
     # parameter-update protocols: eval (and a fresh compile) follow the CURRENT logits whatever mechanism changed them
     protocols.dense_protocol(ck, "raw", "")
     protocols.conv_protocol(ck, "raw", "")
+    protocols.large_batch_rows(ck, train=False)
     return ck.finish()
 
 
